@@ -33,6 +33,9 @@ FAMILY = [
     # the highest template of this probe has no spikes
     {'n_channels': 3, 'n_templates': 3, 'channel_map': 'identity', 'geometry': 'grid',
      'ind_dtype': 'uint32', 'unused_top': True},
+    # probe geometry in millimetres (sites less than one unit apart)
+    {'n_channels': 4, 'n_templates': 2, 'channel_map': 'identity', 'geometry': 'grid_mm',
+     'ind_dtype': 'uint32'},
     # templates stored in double precision (the other probes store float32)
     {'n_channels': 3, 'n_templates': 2, 'channel_map': 'perm', 'geometry': 'grid',
      'ind_dtype': 'uint32', 'template_dtype': 'float64'},
@@ -184,6 +187,20 @@ def check(res):
                     {k: prm.get(k) for k in ('n_channels_dat', 'sample_rate', 'error')}))
     if res.get('loads') is not True:
         bad.append(('merged-directory', 'does-not-load', 'load_model succeeds', res.get('loads')))
+    # the model returned by merge() shows what the merged files hold
+    mod = res.get('model') or {}
+    if 'error' not in mod:
+        for key, fn in (('channel_positions', 'channel_positions.npy'),
+                        ('similar_templates', 'similar_templates.npy')):
+            a, b = out.get(fn), mod.get(key)
+            if key == 'channel_positions' and isinstance(a, np.ndarray) and \
+                    len(set(map(tuple, a.tolist()))) < len(a):
+                continue      # coinciding sites (the known single-column finding): the loader's documented
+                # fallback replaces them by a linear layout
+            if isinstance(a, np.ndarray) and b is not None and (
+                    np.asarray(b).shape != a.shape or not np.array_equal(np.asarray(b, dtype=np.float64),
+                                                                        a.astype(np.float64))):
+                bad.append(('model.' + key, 'differs-from-merged-file', describe(a), describe(np.asarray(b))))
     return bad
 
 
